@@ -22,7 +22,7 @@ import (
 func init() {
 	core.Register(&core.Property{
 		ID:   "C05",
-		Rule: "value pool covering every System type, every Date/DateTime/Time precision x {no offset, Z, +05:30, -11:00}, numeric scale variants, quantities with equal/different/calendar units, each also carried as a FHIR primitive element where representable, plus complex elements, plus every value of every value-set bound code element (4751 values; compared with their FHIR code strings in one process, both orders); all ordered pairs x {=,!=,<,<=,>,>=} (operands as %env values through pre-compiled expressions, and as literal source text for a seeded sample); compared with the comparison model where the statement defines the answer, and with the relational laws (symmetry, negation, converse, trichotomy, transitivity of < within each kind) on every pair; collections of length 0..4 differing at each position, primitive and complex. one compiled comparison per (literal operand, operator, side) evaluated over the whole pool forwards and backwards from several starting points, each outcome equal to the all-variable form; distinct_nontrivial = distinct (left value, right value) pairs on which the model gives an absolute answer and the operands are not identical sources",
+		Rule: "value pool covering every System type, every Date/DateTime/Time precision x {no offset, Z, +05:30, -11:00}, numeric scale variants, quantities with equal/different/calendar units, each also carried as a FHIR primitive element where representable (strings also as xhtml, markdown, uri, url, canonical, id, oid, uuid elements), plus complex elements, plus every value of every value-set bound code element (4751 values; compared with their FHIR code strings in one process, both orders); all ordered pairs x {=,!=,<,<=,>,>=} (operands as %env values through pre-compiled expressions, and as literal source text for a seeded sample); compared with the comparison model where the statement defines the answer, and with the relational laws (symmetry, negation, converse, trichotomy, transitivity of < within each kind) on every pair; collections of length 0..4 differing at each position, primitive and complex. one compiled comparison per (literal operand, operator, side) evaluated over the whole pool forwards and backwards from several starting points, each outcome equal to the all-variable form; distinct_nontrivial = distinct (left value, right value) pairs on which the model gives an absolute answer and the operands are not identical sources",
 		Assumptions: []string{"mixed kinds, Boolean ordering, offset vs no offset, number vs Quantity and singular/plural unit spellings are only subject to the laws (the statement does not define them)",
 			"a partial-precision DateTime cannot be shifted by an offset: pairs with different offsets are decided only at second precision or finer"},
 		Run:    runC05,
